@@ -33,7 +33,81 @@ def run_generic(ctx, monitor, n, nsteps=30, **kw):
     hostdrive.compare(ctx, traces)
 
 
+def reconnect_scenarios(ctx):
+    """close() in the middle of a fragmented message, connect() again on the same object while the interrupted request
+    still sits in its acknowledgement wait, then a new fragmented request: the fragments of the new message are written
+    contiguously - a leftover fragment of the interrupted request may come before or after them, never in between.
+    Implementation-side observation (connect / close + connect are not events of the model)."""
+    import hostworld
+    import streams
+    K = hostworld.kinds()
+    r = ctx.rng
+    for n in range(ctx.scale(24, 240)):
+        w = hostworld.HostWorld()
+        try:
+            first_kind = r.choice("WBD")
+            acks_before = r.randrange(0, 3)
+            w.start(1, K[first_kind][0](1), 9.0)
+            for _ in range(acks_before):
+                w.rx(streams.ack(w.p._pack_seq))
+            hist = ["start %s" % first_kind] + ["ACK"] * acks_before
+            if r.random() < 0.3:
+                w.start(2, K[r.choice("DWG")][0](2), 9.5); hist.append("start second")
+            w.close(); hist.append("close")
+            if r.random() < 0.5:
+                w.loop.nudge(r.choice([0.2, 0.5, 0.8]))
+            m0 = w.mark()
+            w.reconnect(); hist.append("connect")
+            nxt = 3
+            w.start(nxt, K[r.choice("WBDF")][0](nxt), 11.0); hist.append("start new")
+            for step in range(40):
+                if all(tk.done() for tk in w.tasks.values()):
+                    break
+                x = r.random()
+                if x < 0.5:
+                    w.rx(streams.ack(w.p._pack_seq)); hist.append("ACK")
+                elif x < 0.6 and nxt < 5:
+                    nxt += 1
+                    w.start(nxt, K[r.choice("DWZ")][0](nxt), 11.0 + nxt); hist.append("start another")
+                else:
+                    if not w.tick():
+                        break
+                    hist.append("timer")
+            # contiguity on the new connection
+            cur, bad, done = None, None, set()
+            for e in w.log[m0:]:
+                if e.startswith("D") and "=" in e:
+                    i = int(e[1:].split("=")[0])
+                    done.add(i)
+                    if cur == i:
+                        cur = None
+                elif e.startswith("W") and "#" in e:
+                    rid = int(e.rsplit("#", 1)[1])
+                    raw = bytes.fromhex(e[1:].split("#")[0])
+                    if raw[5] & 1 or rid == 0:
+                        continue
+                    first, last = bool(raw[5] & 0x40), bool(raw[5] & 0x80)
+                    if cur is not None and cur != rid and cur not in done and bad is None:
+                        bad = "a frame of request %d is written between the fragments of request %d" % (rid, cur)
+                    if first and not last:
+                        cur = rid
+                    elif last and cur == rid:
+                        cur = None
+            inp = dict(history=hist)
+            ctx.case(("reconnect", tuple(hist)), nontrivial=True,
+                     sample=dict(history=hist[:14], writes=[x[-2:] for x in w.log[m0:] if x.startswith("W") and "#" in x][:12]))
+            ctx.count("close+connect-scenario")
+            if "RECONNECTED" not in w.log:
+                ctx.count("close+connect-scenario:connect-failed")
+            if bad:
+                ctx.counterexample("fragments-interleaved-after-reconnect", inp, "fragments of one message contiguous", bad,
+                                   "after close() + connect() the fragments of a message are interleaved with another request's frame")
+        finally:
+            w.shutdown()
+
+
 def run(ctx):
+    reconnect_scenarios(ctx)
     ctx.rule = ("random quiescent-point schedules of 30 events + drain: request starts of 6 kinds (1, 2, 3 and 4 fragments; "
                 "blocking and non-blocking; <= 3 live), matching / wrong ACKs, responses, timer expiry, cancellation, rare "
                 "close / loss; non-trivial = >= 2 requests and >= 4 event kinds; distinct by event list")
